@@ -68,10 +68,10 @@ def poly(  # pylint: disable=dangerous-default-value  # always replaced by state
         with R.
     """
 
+    x = numpy.array(x, dtype=numpy.float64)
+
     if raw:
         return numpy.stack([numpy.power(x, k) for k in range(1, degree + 1)], axis=1)
-
-    x = numpy.array(x, dtype=numpy.float64)
 
     # Prepare output matrix (needed because we resize x below if there are nulls)
     out = numpy.empty((x.shape[0], degree))
